@@ -55,6 +55,13 @@ theorem C11_nav_subscript_partial (doc : Env) (n : Nav) (i : BIdx) (h : i.ok = t
 theorem C11_subscript_path_text (i : BIdx) (h : i.ok = true) : parsePath (bracketPath i) = some [i.seg] :=
   parsePath_bracket i h
 
+/-- a QUOTED subscript made only of digits is a KEY (`v['2024']` → `$.2024` → key "2024"); the integer subscript
+    `v[2024]` is a position — the two stay distinct all the way to DuckDB's path parser -/
+theorem C11_subscript_digit_key :
+    parsePath (bracketPath (.str "2024".toList)) = some [.key "2024".toList] ∧
+    parsePath (bracketPath (.num "2024".toList)) = some [.idx 2024] ∧
+    (BIdx.str "0".toList).seg = .key "0".toList ∧ (BIdx.num "0".toList).seg = .idx 0 := by decide
+
 /-- **Missing paths and non-matching kinds give NULL** -/
 theorem C11_missing (doc : Env) (n : Nav) (p : Path) (h : Fs.Json.get doc.doc (flat n ++ p) = none) :
     evalDuck doc (pipeline (Nav.path n p).toE) = .null := by
